@@ -41,11 +41,7 @@ Theorem C04_history_invariant_partial :
          (y0 : Y) (p : P) (ops : list (op U O)),
     Forall (no_steady U O) ops ->
     Inv2 Y P (run Y P U O flow solve_ok conv pupd yovr gen_sim_facts (sim_new Y P y0 p) ops).
-Proof.
-  intros. apply (history_invariant Y P U O flow solve_ok conv pupd yovr gen_sim_facts (good_of_pinned _ C04_facts_pinned)).
-  - assumption.
-  - apply sim_new_inv2.
-Qed.
+Proof. exact (fun Y P U O flow solve_ok conv pupd yovr y0 p ops H => history_invariant Y P U O flow solve_ok conv pupd yovr gen_sim_facts (good_of_pinned _ C04_facts_pinned) ops (sim_new Y P y0 p) H (sim_new_inv2 Y P y0 p)). Qed.
 Print Assumptions C04_history_invariant_partial.
 
 (** ... in particular the accumulated time axis is strictly increasing after any such history *)
